@@ -88,6 +88,9 @@ def run_program(inst, mode):
     zvars, pre = [], []
     wide = mode == "validity" or "wide-constant" in inst.get("tags", [])
     clo, chi = (I32_MIN, I32_MAX) if wide else (-100, 100)
+    if mode == "validity":
+        # any integer constant the source can spell, also beyond 32 bits: whatever is emitted for it must be a valid immediate
+        clo, chi = -2 ** 34, 2 ** 34
     try:
         args, zv, p = joint.sym_inputs(f.params, structs=prog.structs)
         gvals, gz, gp = joint.sym_inputs(prog.globals, prefix="g_", structs=prog.structs)
